@@ -205,11 +205,20 @@ class World(object):
 ASCII_WORDS = ['Foo', 'Bar', 'x', 'ValidationError', 'a1', 'Q_z', 'sub-code', 'Sender', 'Receiver', 'Client', 'Server']
 UNI_POOL = ['h\xe9llo', '世界', '\U0001f600', 'Ж', 'a b', '<&>"\'', ']]>', 'tab\there', 'nl\nnl',
             'cr\rlf', '\x7f', '\x85', '\xa0', ' ', '�', '\U0010ffff', '%s %d', '{0}', '\\n', '&amp;', 'x' * 30]
+# text that is data here but syntax to some layer a fault might be (wrongly) pushed through: XML/HTML
+# character and entity references, markup, CDATA, comments, processing instructions, doctype,
+# percent / backslash / MIME / UTF-7 escapes, format and template placeholders.  A fault field is
+# opaque: every one of these must arrive character for character.
+MARKUP = ['&#233;', '&#xE9;', '&#x41;', '&#65', '&#', '&#;', '&#x;', '&#38;amp;', '&#60;b&#62;', '&#0;', '&#1114112;',
+          '&#xD800;', '&eacute;', '&lt;tag&gt;', '&nbsp;', '&unknown;', '&amp;#233;', '&', '& #65;', '<b>bold</b>', '<br/>',
+          '<name>', '</faultstring>', '<!-- c -->', '<?pi x?>', '<![CDATA[cd]]>', '<!DOCTYPE x>', '< a', 'a<b>c', '%41',
+          '%26%2365%3B', '%', '%%', '%(x)s', '\\u00e9', '\\x41', '\\', '${x}', '{{x}}', '{x}', '=?utf-8?q?=C3=A9?=',
+          '+ADw-', '\'', '"q"', '`x`', '$(x)', 'a\tb', '\r\n']
 XML_BAD = ['\x00', '\x0b', '\x1f', '￾', '￿', '\x01mid']
 SPACES = [' ', '\t', '\n', '\xa0', '　', '\x1f', '\x85']
 KEYS_OK = ['a', 'b', 'key', 'K9', '_u', 'a.b', 'a-b', 'detail', 'faultcode', 'Zz', 'x1', 'some']
 KEYS_BAD = ['', 'a b', '1a', '-a', 'a:b', 'a<', '.a', 'a/b']
-KEYS_UNI = ['cl\xe9', '世', 'a b', '', '1', 'k:1', '\U0001f600']
+KEYS_UNI = ['&#65;', '<k>', '%41', 'cl\xe9', '世', 'a b', '', '1', 'k:1', '\U0001f600']
 
 
 def gen_text(rng, allow_bad=False, allow_empty=True):
@@ -221,8 +230,10 @@ def gen_text(rng, allow_bad=False, allow_empty=True):
         q = rng.random()
         if q < 0.45:
             parts.append(rng.choice(ASCII_WORDS))
-        elif q < 0.9:
+        elif q < 0.75:
             parts.append(rng.choice(UNI_POOL))
+        elif q < 0.9:
+            parts.append(rng.choice(MARKUP))
         else:
             parts.append(''.join(chr(rng.choice([rng.randint(32, 126), rng.randint(0xa0, 0x2fff),
                                                  rng.randint(0x10000, 0x10ffff)])) for _ in range(rng.randint(1, 5))))
@@ -252,7 +263,7 @@ def gen_code(rng, pname, stream):
         elif q < 0.8:
             segs.append('')
         elif q < 0.9:
-            segs.append(rng.choice(['ns:Local', 'h\xe9', '世', 'a b', 'a\nb', '<x>']))
+            segs.append(rng.choice(['ns:Local', 'h\xe9', '世', 'a b', 'a\nb', '<x>', '&#65;', '&amp;', '%41', '<!--c-->']))
         else:
             segs.append(''.join(rng.choice('abcXYZ019_-') for _ in range(rng.randint(1, 8))))
     return '.'.join(segs)
@@ -1042,6 +1053,11 @@ def fixed_cases():
         F(code='Client', string=' padded '), F(code='Client.', string='\tx\n'), F(code='Clientx', string='x'),
         F(code='Server.Client.y', string=']]><&>'), F(code='Client..x', string='a\n\nb'),
         F(code='Client.ns:Local.z', string='\U0001f600'), F(string='', detail={'k': ''}),
+        # fields that look like syntax to some layer (see MARKUP): opaque data, must arrive verbatim
+        F(string='see &#233; and &#x41;'), F(string='bad escape &#38;amp; in field <name>'), F(string='  padded &#x41; message'),
+        F(string='&eacute; &lt;b&gt; <b>bold</b> <!-- c --> <![CDATA[cd]]> <?pi x?>', actor='urn:a?x=&#65;&y=<z>'),
+        F(code='Client.&#65;.<x>.%41', string='100% of %41 %s {0} ${x} \\u00e9', detail={'a': '&#233; <b>x</b> &amp;', 'b': {'c': '<![CDATA[&#65;]]>'}}),
+        F(code='Server.&amp;', string='&#', detail={'k': '&#0; &#xD800; &#1114112;'}),
         F(root='ResourceNotFoundError', code='Server.Moved', string='nf'), F(root='RequestTooLongError', code='Server', string='long'),
         F(root='RequestNotAllowed', depth=2, code='Client.x', string='na'), F(root='InvalidCredentialsError', depth=1, code='Other', string='cred'),
         F(root='RespawnError', code='Client.ResourceNotFound', string='respawn'), F(root='ValidationError', depth=1, string='v'),
